@@ -9,6 +9,8 @@ import (
 	"flag"
 	"fmt"
 	"os"
+	"runtime/debug"
+	"strings"
 	"time"
 
 	"verif/sim/kernel"
@@ -36,7 +38,43 @@ type line struct {
 	WallUs      int64    `json:"wall_us"`
 }
 
-func runOne(prop string, t *kernel.Tape, o rt.Opts) *rt.Result {
+// runOne executes one run. A panic that escapes the run while code under
+// test is innermost on the stack (for instance while the harness takes the
+// golden dump of a client) is a violation of the run; a panic inside the
+// harness itself is an infrastructure error.
+func runOne(prop string, t *kernel.Tape, o rt.Opts) (res *rt.Result) {
+	defer func() {
+		if x := recover(); x != nil {
+			st := string(debug.Stack())
+			inner := ""
+			seenPanic := false
+			for _, l := range strings.Split(st, "\n") {
+				if strings.HasPrefix(l, "panic(") {
+					seenPanic = true
+					continue
+				}
+				if !seenPanic || strings.HasPrefix(l, "\t") || strings.HasPrefix(l, "runtime.") || strings.HasPrefix(l, "goroutine ") || l == "" {
+					continue
+				}
+				inner = l
+				break
+			}
+			if len(st) > 3000 {
+				st = st[:3000]
+			}
+			res = &rt.Result{Prop: prop, Status: "ok", Config: "panic-outside-operation"}
+			if strings.HasPrefix(inner, "deps.dev/") {
+				res.Violations = []rt.Violation{{Kind: "panic", Key: "panic:outside-operation", Detail: fmt.Sprintf("panic while the harness was calling the code under test: %v\n%s", x, st)}}
+			} else {
+				res.Status = "harness-panic"
+				res.Config = fmt.Sprintf("%v\n%s", x, st)
+			}
+		}
+	}()
+	return runProp(prop, t, o)
+}
+
+func runProp(prop string, t *kernel.Tape, o rt.Opts) *rt.Result {
 	switch prop {
 	case "C05":
 		return props.RunC05(t, o)
